@@ -204,21 +204,18 @@ func runHist(c *hx.Ctx, w *world, h *Hist, emit bool) {
 			c.Count("declared:with-quorum")
 			continue
 		}
-		// ORACLE: commit declared without a verifiable quorum.
+		// ORACLE: commit declared without a verifiable quorum; class by cause (classify.go).
 		class := "quorum:short-without-known-cause"
-		switch {
-		case len(o.Unsigned) > 0:
-			// a message whose own mandatory signature does not verify was counted: never a listed cause
-			class = "quorum:unsigned-message-counted"
-		case o.Unverif:
-			class = "quorum:unverified:" + o.FirstBad
-		case o.Double && have >= q-1:
-			class = "quorum:proposer-counted-twice"
+		var detail map[string]interface{}
+		for _, sq := range o.Short {
+			if sq.P == oc.P && sq.Empty == oc.Empty {
+				class, detail = sq.Class, sq.Detail
+			}
 		}
 		c.Count("declared:" + class)
 		c.Fail(class, "commit consensus declared for a proposer without N-(N-1)/3 distinct consensus peers holding a verifiable signature for its proposal",
 			h, map[string]interface{}{"declared_proposer": oc.P, "for_empty": oc.Empty, "valid_signers": have, "commitDone_outcomes": o.CD,
-				"receive_results": o.Results, "unsigned_messages_accepted": o.Unsigned},
+				"receive_results": o.Results, "unsigned_messages_accepted": o.Unsigned, "tally": detail},
 			fmt.Sprintf("at least %d valid signers (N=%d)", q, h.N))
 	}
 	if declared || len(o.Commits) > 0 && len(o.ESigs) > 1 {
@@ -313,6 +310,10 @@ func Run(c *hx.Ctx) {
 	for _, h := range witnesses() {
 		hh := h
 		runHist(c, w, &hh, true)
+	}
+	for _, h := range splitProposalProbes() {
+		hh := h
+		runHist(c, w, &hh, false)
 	}
 	for _, h := range strippedProposalProbes() {
 		hh := h
